@@ -735,3 +735,70 @@ Theorem copy_spec : forall l, run_step na SCopy l = Ok l.
 Proof. reflexivity. Qed.
 
 End GetItem.
+
+(* ================================================================== *)
+(** * 6. sanity of the specification itself                             *)
+(* ================================================================== *)
+(* l[:] is l and l[::-1] is the reversed list: the Spec's slice is the slice
+   one means *)
+Section SpecSanity.
+Context {X : Type}.
+Variable na : X.
+
+Lemma map_nth_seq_id : forall (l : list X),
+  map (fun n => nth n l na) (seq 0 (length l)) = l.
+Proof.
+  intros l. apply (nth_ext _ _ na na).
+  - rewrite map_length, seq_length. reflexivity.
+  - intros k Hk. rewrite map_length, seq_length in Hk.
+    rewrite (nth_indep (map (fun i => nth i l na) (seq 0 (length l))) na (nth 0%nat l na))
+      by (rewrite map_length, seq_length; exact Hk).
+    rewrite (map_nth (fun i => nth i l na)), seq_nth by exact Hk. reflexivity.
+Qed.
+
+Theorem py_slice_full : forall l, py_slice na l None None None = Ok l.
+Proof.
+  intros l. unfold py_slice. cbn [Z.eqb].
+  unfold py_slice_bounds, py_bound. cbn [Z.ltb Z.compare].
+  rewrite py_range_zrange by lia. rewrite zrange_step1, map_map.
+  f_equal. rewrite Z.sub_0_r, Nat2Z.id.
+  rewrite <- (map_nth_seq_id l) at 2. apply map_ext. intros n. f_equal. lia.
+Qed.
+
+Theorem py_slice_reverse : forall l, py_slice na l None None (Some (-1)) = Ok (rev l).
+Proof.
+  intros l. unfold py_slice. cbn [Z.eqb].
+  unfold py_slice_bounds, py_bound. cbn [Z.ltb Z.compare].
+  rewrite py_range_zrange by lia.
+  set (n := length l).
+  assert (R : range_len (Z.of_nat n - 1) (-1) (-1) = Z.of_nat n).
+  { unfold range_len. cbn [Z.ltb Z.compare Z.opp].
+    destruct (-1 <? Z.of_nat n - 1) eqn:E.
+    - rewrite Z.div_1_r. lia.
+    - lia. }
+  unfold zrange. rewrite R, Nat2Z.id, map_map. f_equal.
+  apply (nth_ext _ _ na na).
+  - rewrite map_length, seq_length, rev_length. reflexivity.
+  - intros k Hk. rewrite map_length, seq_length in Hk.
+    rewrite (nth_indep (map _ (seq 0 n)) na
+               ((fun x => nth (Z.to_nat (Z.of_nat n - 1 + Z.of_nat x * -1)) l na) 0%nat))
+      by (rewrite map_length, seq_length; exact Hk).
+    rewrite (map_nth (fun x => nth (Z.to_nat (Z.of_nat n - 1 + Z.of_nat x * -1)) l na)),
+      seq_nth by exact Hk.
+    rewrite rev_nth by exact Hk. f_equal. fold n. lia.
+Qed.
+
+(* hence: arr[:] and arr[::-1] *)
+Corollary getitem_full_slice : forall l, run_step na (GetSlice None None None) l = Ok l.
+Proof.
+  intros l. unfold run_step, GetSlice, getitem, getitem_index.
+  rewrite getitem_slice_spec, py_slice_full. reflexivity.
+Qed.
+
+Corollary reverse_spec : forall l, run_step na Reverse l = Ok (rev l).
+Proof.
+  intros l. unfold run_step, Reverse, GetSlice, getitem, getitem_index.
+  rewrite getitem_slice_spec, py_slice_reverse. reflexivity.
+Qed.
+
+End SpecSanity.
